@@ -1177,6 +1177,16 @@ class FrozenMinHash(MinHash):
     def add_protein(self, *args, **kwargs):
         raise TypeError("FrozenMinHash does not support modification")
 
+    @property
+    def track_abundance(self):
+        return MinHash.track_abundance.fget(self)
+
+    @track_abundance.setter
+    def track_abundance(self, b):
+        if self.track_abundance == b:
+            return
+        raise TypeError("FrozenMinHash does not support modification")
+
     def downsample(self, *, num=None, scaled=None):
         if scaled and self.scaled == scaled:
             return self
